@@ -337,6 +337,25 @@ def run(F, R, tier):
             if c.get("k") in ("call", "mcall") and (cal.startswith("std::io::BufWriter") or cal.startswith("std::io::BufReader")) and H.last(cal) in BYPASS:
                 byp.append("%s: %s" % (p, cal))
     R.ob("no-buffer-bypass", "the builtins never reach under a handle's BufReader / BufWriter", not byp, "; ".join(byp)[:300])
+    # ---- what write() hands to a *file* is the bytes it was given: no text formatting on the way ---------------------------------
+    # (`write!(out, "{}", b as char)` turns every byte above 0x7f into two; stdout / stderr are outside this property)
+    bw = F.fn(BF + "builtin_write")
+    if R.anchor("builtin_write", bw):
+        nb = H.normal(F, H.body_of(bw), keep=("write", "write_all", "into"))
+        arms_w = [a_ for m_ in H.walk(nb) if m_.get("k") == "match" and not H.is_try(m_) for a_ in m_["arms"]
+                  if any((v or "").endswith("FileHandle::Writer") for v in H.pat_variants(a_["pat"]))]
+        fmt = []
+        sinks = 0
+        for a_ in arms_w:
+            for c in H.walk(a_["body"]):
+                if c.get("k") == "mcall" and c["m"] in ("write", "write_all") and "Write" in (c.get("decl") or c.get("callee") or ""):
+                    sinks += 1
+                if c.get("k") == "mcall" and c["m"] == "write_fmt":
+                    fmt.append(H.render(c)[:60])
+                if c.get("k") == "cast" and c.get("ty") == "char":
+                    fmt.append("a byte converted to char: " + H.render(c)[:40])
+        R.ob("file-write-verbatim", "write() to a file opened for writing passes bytes, strings and packets to Write::write / write_all unformatted",
+             bool(arms_w) and sinks >= 1 and not fmt, "%d writer arms, %d raw writes%s" % (len(arms_w), sinks, "; formatted: %s" % fmt if fmt else ""), F.loc(bw))
     # a read asks the operating system every time: the only state between two reads of a handle is the handle's own
     # BufReader.  (a) a file handle holds a std BufReader<File> / BufWriter<File> and nothing else — a wrapper with an
     # "end of file seen" flag answers later reads from the flag; (b) the I/O builtins use no process-wide or
